@@ -27,6 +27,12 @@ def specs(tier):
         # AIM with a size limit so small that the first rounds admit only one-way candidates, and AIM given an explicit generator
         out.append({'mech': 'aim', 'eps': eps, 'delta': delta, 'rounds': 12, 'workload': [list(c) for c in PAIRS], 'max_model_size': 3e-4, 'sizes': [4, 4, 4]})
         out.append({'mech': 'aim', 'eps': eps, 'delta': delta, 'rounds': 4, 'workload': [['A', 'B'], ['B', 'C']], 'prng': 'np.random'})
+        # one mechanism object reused for the base and the neighbour executions; the data spelled as a unit-weighted dataset
+        out.append({'mech': 'aim', 'eps': eps, 'delta': delta, 'rounds': 4, 'workload': [['A', 'B'], ['B', 'C']], 'reuse': True})
+        out.append({'mech': 'mwem', 'eps': eps, 'delta': delta, 'noise': 'gaussian', 'bounded': False, 'rounds': 2, 'alpha': 0.9, 'weights': True})
+        out.append({'mech': 'mwem', 'eps': eps, 'delta': delta, 'noise': 'laplace', 'bounded': True, 'rounds': 1, 'alpha': 0.9, 'weights': True})
+        out.append({'mech': 'mst', 'eps': eps, 'delta': delta, 'weights': True})
+        out.append({'mech': 'aim', 'eps': eps, 'delta': delta, 'rounds': 4, 'workload': [['A', 'B'], ['B', 'C']], 'weights': True})
         mw = itertools.product(['gaussian', 'laplace'], [False, True], [1, 2] if tier == 'quick' else [1, 2, 3], [0.9] if tier == 'quick' else [0.9, 0.5])
         for noise, bounded, rounds, alpha in mw:
             if tier == 'thorough' and alpha == 0.5 and rounds != 2:
